@@ -218,6 +218,7 @@ class SqlStorage(MutableMapping):
                           .format(seq=",".join(['?'] * len(metadata_any)))
                 else:
                     # all of the given metadata
+                    metadata_all = set(metadata_all)   # duplicates in the argument must not raise the required count
                     params = list(metadata_all)
                     params.append(len(metadata_all))
                     sql = "SELECT id, name, uri FROM pyro_names WHERE id IN (SELECT object FROM pyro_metadata WHERE metadata IN ({seq}) " \
